@@ -47,7 +47,7 @@ neighbor 127.0.0.2 {{
   hold-time {hold};
   {passive}
   {extra}
-  family {{ ipv4 unicast; ipv6 unicast; }}
+  family {{ {families} }}
   capability {{ add-path send/receive; route-refresh {rr}; graceful-restart disable; }}
   api {{
     processes [ svc ];
@@ -98,10 +98,10 @@ class ReactorStub:
 class PeerWorld:
     _runs = 0
 
-    def __init__(self, hold=9, local_as=65000, peer_as=65001, passive=False, extra='', static='', openwait=60, tail='', route_refresh=True, receive=True, slow_reader=None) -> None:
+    def __init__(self, hold=9, local_as=65000, peer_as=65001, passive=False, extra='', static='', openwait=60, tail='', route_refresh=True, receive=True, slow_reader=None, families='ipv4 unicast; ipv6 unicast;') -> None:
         RIB._cache.clear()
         Connection.identifier.clear()
-        self._fmt = dict(hold=hold, local_as=local_as, peer_as=peer_as, passive='passive true;' if passive else '', extra=extra, rr='enable' if route_refresh else 'disable',
+        self._fmt = dict(hold=hold, local_as=local_as, peer_as=peer_as, passive='passive true;' if passive else '', extra=extra, rr='enable' if route_refresh else 'disable', families=families,
                          receive='receive { parsed; update; notification; open; keepalive; refresh; }' if receive else '')
         text = self.config_text(static, tail)
         self.conf = Configuration([text], text=True)
@@ -412,6 +412,9 @@ class PeerWorld:
     # -- canned remote behaviour ------------------------------------------------------------------
     def open_bytes(self, hold=None, asn=None, rid='5.6.7.8', **kw) -> bytes:
         asn = self.peer_as if asn is None else asn
+        if 'nlri-mpls' in self._fmt.get('families', ''):          # the remote speaker offers what the session under test is configured for
+            kw.setdefault('fams', ((1, 1), (1, 4)))
+            kw.setdefault('addpath', ((1, 1, 3), (1, 4, 3)))
         return bgpmsg.open_msg(asn, self.hold if hold is None else hold, rid, bgpmsg.default_caps(asn, **kw))
 
     async def establish(self, hold=None, **caps) -> bool:
